@@ -197,6 +197,8 @@ class C10(Spec):
                     victim = okc[-1]
                     if tab.remove(m, victim):
                         ops.append("-%d:%s" % (m, pv.hexs(victim)))
+            if rng.random() < 0.3:
+                ops.insert(rng.randrange(len(ops) + 1), "N")
             qs = []
             paths = rng.sample(allpaths, min(nq, len(allpaths)))
             for p in paths:
@@ -233,8 +235,10 @@ class C10(Spec):
                 if got != ("405", exp[1]):
                     return "%s %s: expected 405 Allow=%s, got %s" % (METHODS[m], r, exp[1], tok)
             else:
-                if got[0] != "404":
-                    return "%s %s: expected 404, got %s" % (METHODS[m], r, tok)
+                want = "404nf" if " N " in (" " + case.split(" Q ")[0] + " ") else "404"
+                if tok != want:
+                    return ("%s %s: expected %s, got %s" % (METHODS[m], r,
+                            "the not-found handler to run exactly once" if want == "404nf" else "404", tok))
         return None
 
     def nontrivial(self, case, impl):
